@@ -43,9 +43,9 @@ RR == <<Dh, Col(6)>> \o Boxed(Word(72, 105) \o <<Col(6)>> \o Word(99, 121))
 RS == <<Col(6)>> \o Boxed(Word(72, 105) \o <<Col(6)>> \o Word(99, 121))
 RN == Boxed([i \in 1..13 |-> Ch(SetToSortSeq(NationalPositions, <)[i])] \o <<Ch(65)>>)
 
-Hdr(mag, pt, pu, sub, serial, cs, own) == [k |-> "hdr", mag |-> mag, pt |-> pt, pu |-> pu, sub |-> sub, serial |-> serial, cs |-> cs, erase |-> FALSE, row |-> 0, cells |-> <<>>, own |-> own, grp |-> 0]
-Row(mag, row, cells, own) == [k |-> "row", mag |-> mag, pt |-> 0, pu |-> 0, sub |-> FALSE, serial |-> FALSE, cs |-> 0, erase |-> FALSE, row |-> row, cells |-> cells, own |-> own, grp |-> 0]
-Extra(kind, mag) == [k |-> kind, mag |-> mag, pt |-> 0, pu |-> 0, sub |-> FALSE, serial |-> FALSE, cs |-> 0, erase |-> FALSE, row |-> 20, cells |-> RA, own |-> 0, grp |-> 0]
+Hdr(mag, pt, pu, sub, serial, cs, own) == [k |-> "hdr", mag |-> mag, pt |-> pt, pu |-> pu, sub |-> sub, serial |-> serial, cs |-> cs, erase |-> FALSE, row |-> 0, cells |-> <<>>, own |-> own, grp |-> 0, dc |-> 0]
+Row(mag, row, cells, own) == [k |-> "row", mag |-> mag, pt |-> 0, pu |-> 0, sub |-> FALSE, serial |-> FALSE, cs |-> 0, erase |-> FALSE, row |-> row, cells |-> cells, own |-> own, grp |-> 0, dc |-> 0]
+Extra(kind, mag) == [k |-> kind, mag |-> mag, pt |-> 0, pu |-> 0, sub |-> FALSE, serial |-> FALSE, cs |-> 0, erase |-> FALSE, row |-> 20, cells |-> RA, own |-> 0, grp |-> 0, dc |-> 0]
 
 \* target page 100 (magazine 1, page 00)
 T(own, serial, cs, rows) == <<Hdr(1, 0, 0, TRUE, serial, cs, own)>> \o [i \in DOMAIN rows |-> Row(1, rows[i][1], rows[i][2], own)]
@@ -125,6 +125,7 @@ CasesM == UNION {{[st |-> Stream(TM(m, 1, <<<<20, RA>>>>) \o TM((m % 8) + 1, 0, 
 
 \* D: designation of the character set (own = 99: by construction the designation governs the target page)
 Desig(kind, mag, grp, applies) == [Extra(kind, mag) EXCEPT !.grp = grp, !.own = IF applies THEN 99 ELSE 0]
+DesigDc(kind, mag, grp, applies, dc) == [Desig(kind, mag, grp, applies) EXCEPT !.dc = dc]
 TD(own) == T(own, TRUE, 0, <<<<20, RN>>>>)
 CasesD == {[st |-> Stream(us, g), op |-> Opt(100, 0)] : g \in {1, 2},
              us \in {<<Desig("m29", 1, 1, TRUE)>> \o TD(1) \o TD(2),                      \* M/29 before the page is received
@@ -134,6 +135,9 @@ CasesD == {[st |-> Stream(us, g), op |-> Opt(100, 0)] : g \in {1, 2},
                       <<Desig("m29", 2, 1, FALSE)>> \o TD(1) \o TD(2),                     \* another magazine's
                       <<Desig("x28", 1, 1, FALSE)>> \o TD(1) \o TD(2),                     \* X/28 while no page is received
                       TD(1) \o DSame(TRUE) \o <<Desig("x28", 1, 1, FALSE)>> \o TD(2),      \* X/28 of another page of the magazine
+                      <<DesigDc("m29", 1, 1, TRUE, 4)>> \o TD(1) \o TD(2),                  \* M/29/4
+                      <<Hdr(1, 0, 0, TRUE, TRUE, 0, 1), DesigDc("x28", 1, 1, TRUE, 4), Row(1, 20, RN, 1)>> \o TD(2),    \* X/28/4
+                      <<DesigDc("m29", 1, 1, FALSE, 1)>> \o TD(1) \o TD(2),                 \* M/29/1 designates nothing
                       TD(1) \o TD(2)}}
 
 Cases(fam) == CASE fam = "D" -> CasesD [] fam = "M" -> CasesM [] fam = "I" -> CasesI [] fam = "S" -> CasesS [] fam = "P" -> CasesP [] fam = "E" -> CasesEOK [] fam = "A" -> CasesA [] fam = "H" -> CasesH [] fam = "C" -> CasesC
